@@ -15,7 +15,10 @@ func init() {
 	vfRegister("VF_C10_contract", VF_C10_contract)
 	vfRegister("VF_C10_quiet", VF_C10_quiet)
 	vfRegister("VF_C16_flags", VF_C16_flags)
+	vfRegister("VF_C17_decision", VF_C17_decision)
 }
+
+const vfMenuSize = 14
 
 type vfOut struct{ text string }
 
@@ -32,7 +35,9 @@ func vfSvc(ctor string, args ...any) input.Service {
 //
 //	0 valid, 1 grammar defect, 2 missing parameter, 3 missing service,
 //	4 dependency cycle, 5 shared-on-contextual, 6 missing parameter + service,
-//	7 cycle + missing service + missing parameter, 8 scope + missing references in a decorator
+//	7 cycle + missing service + missing parameter, 8 scope + missing references in a decorator,
+//	9/10 shared service with a missing service / parameter, 11/12 cycle / scope defect behind
+//	a missing service in the same list, 13 parameter cycle + missing parameter
 func vfMenu(k int) input.Input {
 	shared, contextual := input.ScopeShared, input.ScopeContextual
 	switch k {
@@ -58,6 +63,14 @@ func vfMenu(k int) input.Input {
 		a := vfSvc("NewA", "%nope%")
 		a.Scope = &shared
 		return input.Input{Services: map[string]input.Service{"a": a}}
+	case 11: // a cycle whose closing reference comes after a missing service in the same argument list
+		return input.Input{Services: map[string]input.Service{"a": vfSvc("NewA", "@nope", "@b"), "b": vfSvc("NewB", "@a")}}
+	case 12: // shared-on-contextual reached through a reference that comes after a missing service
+		a, b := vfSvc("NewA", "@nope", "@b"), vfSvc("NewB")
+		a.Scope, b.Scope = &shared, &contextual
+		return input.Input{Services: map[string]input.Service{"a": a, "b": b}}
+	case 13: // a parameter cycle next to a missing parameter
+		return input.Input{Params: map[string]any{"p": "%q%", "q": "%p%", "r": "%nope%"}, Services: map[string]input.Service{"svc": vfSvc("NewX")}}
 	case 7: // a cycle together with a missing service and a missing parameter
 		return input.Input{Services: map[string]input.Service{"a": vfSvc("NewA", "@b", "@nope"), "b": vfSvc("NewB", "@a", "%nope%")}}
 	case 8: // shared-on-contextual together with a missing service in a decorator
@@ -67,6 +80,45 @@ func vfMenu(k int) input.Input {
 		return input.Input{Services: map[string]input.Service{"a": a, "b": b}, Decorators: []input.Decorator{{Tag: "t", Decorator: "D", Args: []any{"@nope", "%nope%"}}}}
 	}
 	return input.Input{Services: map[string]input.Service{"svc": vfSvc("NewX")}, Params: map[string]any{"p": 1}}
+}
+
+// vfMenuClasses: the defect classes configuration k has, by construction:
+// grammar, missing parameter, missing service, cycle, scope.
+func vfMenuClasses(k int) (grammar, mparam, msvc, cycle, scope bool) {
+	switch k {
+	case 1:
+		grammar = true
+	case 2, 10:
+		mparam = true
+	case 3, 9:
+		msvc = true
+	case 4:
+		cycle = true
+	case 5:
+		scope = true
+	case 6:
+		mparam, msvc = true, true
+	case 7:
+		mparam, msvc, cycle = true, true, true
+	case 8:
+		mparam, msvc, scope = true, true, true
+	case 11:
+		msvc, cycle = true, true
+	case 12:
+		msvc, scope = true, true
+	case 13:
+		mparam, cycle = true, true
+	}
+	return
+}
+
+func vfHasClass(err error, prefix string) bool {
+	for _, e := range grouperror.Collection(err) {
+		if strings.HasPrefix(e.Error(), prefix) {
+			return true
+		}
+	}
+	return false
 }
 
 type vfScenario struct {
@@ -119,14 +171,16 @@ func vfRunBuild(sc vfScenario, quiet, stub, ignoreParams, ignoreServices bool) v
 	return vfRunResult{err: err, stdout: out.text, writes: runner.VfEnv.Writes, log: runner.VfEnv.Log, fmtLog: template.VfFmtEnv.Calls, touched: runner.VfEnv.Touched}
 }
 
-// vfScenarioChoice draws an environment: 1-2 patterns over two files, each
+// vfScenarioChoice draws an environment: 1-2 patterns over two files (one of them possibly spelled in two ways), each
 // kind of fault switched by a symbolic bit, and a configuration from the menu.
 func vfScenarioChoice() vfScenario {
 	sc := vfScenario{readErr: map[string]bool{}, yamlErr: map[string]bool{}, inputs: map[string]input.Input{}}
-	sc.menu = vfChoice("menu", 11)
+	sc.menu = vfChoice("menu", vfMenuSize)
 	sc.inputs["a.yaml"] = vfMenu(sc.menu)
 	sc.inputs["b.yaml"] = input.Input{Params: map[string]any{"q": "x"}}
-	switch vfChoice("layout", 5) {
+	switch vfChoice("layout", 6) {
+	case 5: // one file spelled in two ways under two patterns
+		sc.patterns, sc.globFiles = []string{"P0", "P1"}, [][]string{{"./a.yaml"}, {"a.yaml"}}
 	case 0: // one pattern, one file
 		sc.patterns, sc.globFiles = []string{"P0"}, [][]string{{"a.yaml"}}
 	case 1: // one pattern, no file
@@ -142,6 +196,14 @@ func vfScenarioChoice() vfScenario {
 	sc.globErr[0] = vfBool("globErr")
 	sc.readErr["a.yaml"] = vfBool("readErr")
 	sc.yamlErr["a.yaml"] = vfBool("yamlErr")
+	if vfBound("c10.full", 0, 1) == 1 {
+		// thorough: the second pattern and the second file can fail as well
+		if len(sc.patterns) > 1 {
+			sc.globErr[1] = vfBool("globErr1")
+		}
+		sc.readErr["b.yaml"] = vfBool("readErrB")
+		sc.yamlErr["b.yaml"] = vfBool("yamlErrB")
+	}
 	sc.formatErr = vfBool("formatErr")
 	sc.importErr = vfBool("importsErr")
 	sc.writeErr = vfBool("writeErr")
@@ -206,6 +268,7 @@ func VF_C10_contract() {
 			continue
 		}
 		for _, f := range fs {
+			f = runner.VfCanon(f)
 			matches++
 			if f == "a.yaml" {
 				aMatched = true
@@ -216,7 +279,13 @@ func VF_C10_contract() {
 			seen[f] = true
 		}
 	}
-	envFault := sc.globErr[0] || matches == 0 || dup || (aMatched && (sc.readErr["a.yaml"] || sc.yamlErr["a.yaml"]))
+	envFault := matches == 0 || dup
+	for pi := range sc.patterns {
+		envFault = envFault || sc.globErr[pi]
+	}
+	for f := range seen {
+		envFault = envFault || sc.readErr[f] || sc.yamlErr[f]
+	}
 	if envFault {
 		vfAssert(r.err != nil, "an unreadable, unparsable, doubly matched or missing input fails the build")
 		vfAssert(!strings.Contains(r.stdout, "Compile······"), "a failing read step stops the run before compilation")
@@ -252,8 +321,9 @@ func VF_C10_quiet() {
 
 // VF_C16_flags: an ignore flag removes exactly the diagnostics of its class.
 func VF_C16_flags() {
+	menu := vfChoice("menu", vfMenuSize)
 	sc := vfScenario{patterns: []string{"P0"}, globErr: []bool{false}, globFiles: [][]string{{"a.yaml"}},
-		readErr: map[string]bool{}, yamlErr: map[string]bool{}, inputs: map[string]input.Input{"a.yaml": vfMenu(vfChoice("menu", 11))}}
+		readErr: map[string]bool{}, yamlErr: map[string]bool{}, inputs: map[string]input.Input{"a.yaml": vfMenu(menu)}}
 	ip, is := vfBool("ignoreParams"), vfBool("ignoreServices")
 	base := vfRunBuild(sc, false, false, false, false)
 	got := vfRunBuild(sc, false, false, ip, is)
@@ -276,6 +346,16 @@ func VF_C16_flags() {
 		}
 	}
 	vfAssert((got.err == nil) == (len(want) == 0), "accepted iff all remaining violations belong to an ignored class")
+	// against what the configuration is known to contain (not only against the flag-less run)
+	grammar, mparam, msvc, cycle, scope := vfMenuClasses(menu)
+	remaining := grammar || cycle || scope || (mparam && !ip) || (msvc && !is)
+	vfAssert((got.err != nil) == remaining, "rejected iff a defect of a class that is not ignored remains")
+	if got.err != nil && !grammar {
+		vfAssert(vfHasClass(got.err, "output.ValidateCircularDeps: ") == cycle, "a cycle is reported iff there is one, whatever the flags")
+		vfAssert(vfHasClass(got.err, "output.ValidateServicesScopes: ") == scope, "a scope violation is reported iff there is one, whatever the flags")
+		vfAssert(vfHasClass(got.err, "output.ValidateParamsExist: ") == (mparam && !ip), "missing parameters are reported iff there are some and they are not ignored")
+		vfAssert(vfHasClass(got.err, "output.ValidateServicesExist: ") == (msvc && !is), "missing services are reported iff there are some and they are not ignored")
+	}
 	// the single-class configurations: accepted exactly under the matching flag
 	switch {
 	case vfMenuOnlyMissingParam(sc.inputs["a.yaml"]):
@@ -304,3 +384,27 @@ func vfOnlyArg(in input.Input, arg string) bool {
 
 func vfMenuOnlyMissingParam(in input.Input) bool   { return vfOnlyArg(in, "%nope%") }
 func vfMenuOnlyMissingService(in input.Input) bool { return vfOnlyArg(in, "@nope") }
+
+// VF_C17_decision: the accept/reject decision, the diagnostics and the file
+// effect are the same with and without --stub, for every configuration of the
+// menu and every ignore-flag combination.
+func VF_C17_decision() {
+	sc := vfScenario{patterns: []string{"P0"}, globErr: []bool{false}, globFiles: [][]string{{"a.yaml"}},
+		readErr: map[string]bool{}, yamlErr: map[string]bool{}, inputs: map[string]input.Input{"a.yaml": vfMenu(vfChoice("menu", vfMenuSize))}}
+	ip, is := vfBool("ignoreParams"), vfBool("ignoreServices")
+	normal := vfRunBuild(sc, false, false, ip, is)
+	stub := vfRunBuild(sc, false, true, ip, is)
+	vfAssert((normal.err == nil) == (stub.err == nil), "the accept/reject decision is the same in both modes")
+	ne, se := grouperror.Collection(normal.err), grouperror.Collection(stub.err)
+	vfAssert(len(ne) == len(se), "the same number of diagnostics in both modes")
+	if len(ne) == len(se) {
+		for i := range ne {
+			vfAssert(ne[i].Error() == se[i].Error(), "the same diagnostics in both modes")
+		}
+	}
+	vfAssert(len(normal.writes) == len(stub.writes), "the output file is written in both modes or in neither")
+	if len(stub.writes) == 1 {
+		vfAssert(strings.Contains(stub.writes[0], "gontainerstub"), "the stub carries its build constraint")
+	}
+	vfReach("C17_decision")
+}
